@@ -503,6 +503,10 @@ func (c *resultCodec) Decode(source io.Reader, version primitive.ProtocolVersion
 		var rowsCount int32
 		if rowsCount, err = primitive.ReadInt(source); err != nil {
 			return nil, fmt.Errorf("cannot read RESULT Rows data length: %w", err)
+		} else if rowsCount < 0 {
+			return nil, fmt.Errorf("invalid RESULT Rows data length: %d", rowsCount)
+		} else if rows.Metadata.ColumnCount < 0 {
+			return nil, fmt.Errorf("invalid RESULT Rows metadata column count: %d", rows.Metadata.ColumnCount)
 		}
 		rows.Data = make(RowSet, rowsCount)
 		for i := 0; i < int(rowsCount); i++ {
